@@ -23,6 +23,9 @@ MODE = "sym"  # or "concrete"
 
 
 # ----------------------------------------------------------------------------- control flow
+NEVER_SWALLOW = []  # further BaseException classes (the virtual-time kernel's) that the library's catch-alls must let through
+
+
 class Control(BaseException):
     """Base of the engine's control exceptions (BaseException so that the library's
     ``except Exception`` cannot swallow them; bare ``except:`` is handled by the loader)."""
